@@ -6,7 +6,7 @@ import importlib.abc
 import importlib.machinery
 
 RT = "_sx_"
-PREFIXES = ("okdmr.dmrlib", "props")
+PREFIXES = ("okdmr.dmrlib", "props", "okdmr.kaitai")
 LOADED = {}          # module name -> path (what was actually encoded)
 
 
@@ -32,7 +32,13 @@ _CMP = {ast.Eq: "==", ast.NotEq: "!=", ast.Lt: "<", ast.LtE: "<=", ast.Gt: ">", 
         ast.In: "in", ast.NotIn: "not in", ast.Is: "is", ast.IsNot: "is not"}
 
 
+_MUTATORS = {"append", "extend", "pop", "add", "update", "insert", "remove", "clear", "invert", "reverse", "setall", "fill", "bytereverse", "sort",
+             "write", "send", "sendto", "put", "popitem", "setdefault", "discard", "frombytes", "close", "set", "acquire", "release", "attr",
+             "delete_attr", "patch", "save"}
+
+
 def _simple_body(stmts):
+    """only assignments whose right-hand sides have no visible side effect may run speculatively under a symbolic condition"""
     for s in stmts:
         if isinstance(s, ast.If):
             if not (_simple_body(s.body) and _simple_body(s.orelse)):
@@ -43,7 +49,23 @@ def _simple_body(stmts):
             for n in ast.walk(s):
                 if isinstance(n, (ast.Yield, ast.YieldFrom, ast.Await, ast.NamedExpr, ast.Starred)):
                     return False
+                if isinstance(n, ast.Call) and isinstance(n.func, ast.Attribute):
+                    if n.func.attr in _MUTATORS:
+                        return False
+                    # already rewritten call: _sx_.call(obj.method, ...)
+                    if n.func.attr == "call" and n.args and isinstance(n.args[0], ast.Attribute) and n.args[0].attr in _MUTATORS:
+                        return False
     return True
+
+
+def _aug_targets(stmts, out):
+    for s in stmts:
+        if isinstance(s, ast.If):
+            _aug_targets(s.body, out)
+            _aug_targets(s.orelse, out)
+        elif isinstance(s, ast.AugAssign):
+            out.add(ast.unparse(s.target))
+    return out
 
 
 def _targets(stmts, out):
@@ -222,9 +244,12 @@ class Rewriter(ast.NodeTransformer):
             t.ctx = ast.Store()
             return t
 
-        def snap(name):
+        aug = _aug_targets(node.body, set()) | _aug_targets(node.orelse, set())
+
+        def snap(name, copying=False):
+            # targets of augmented assignments may be mutated IN PLACE (list += , bitarray +=): the pre-state snapshot must be a copy
             return ast.Assign(targets=[_name(name, True)],
-                              value=ast.Tuple(elts=[_rt("peek", _lam(load(s))) for s in srcs], ctx=ast.Load()))
+                              value=ast.Tuple(elts=[_rt("peek_copy" if (copying and s in aug) else "peek", _lam(load(s))) for s in srcs], ctx=ast.Load()))
 
         def item(name, i):
             return ast.Subscript(value=_name(name), slice=_const(i), ctx=ast.Load())
@@ -239,7 +264,7 @@ class Rewriter(ast.NodeTransformer):
         body_then = node.body or [ast.Pass()]
         body_else = node.orelse or [ast.Pass()]
         import copy as _copy
-        pred_ok = [snap(old),
+        pred_ok = [snap(old, True),
                    ast.Expr(_rt("enter", _name(c), _const(True)))] + _copy.deepcopy(body_then) + [ast.Expr(_rt("leave")), snap(a)] + restore(old) + \
                   [ast.Expr(_rt("enter", _name(c), _const(False)))] + _copy.deepcopy(body_else) + [ast.Expr(_rt("leave")), snap(b)] + \
                   [ast.Assign(targets=[store(s)], value=_rt("merge", _name(c), item(a, i), item(b, i))) for i, s in enumerate(srcs)]
